@@ -674,3 +674,389 @@ Global Hint Resolve T_type_condition T_operation_type T_name_or_err : term.
 Lemma T_root_operation_type_definition n : spec (CM n) g_root_operation_type_definition.
 Proof. unfold g_root_operation_type_definition. tsolve. Qed.
 Global Hint Resolve T_root_operation_type_definition : term.
+(* ---- helpers for the three recursive families *)
+Lemma spec_CM0 {A} (m : PM A) : spec (CM 0) m.
+Proof. intros s Hs. cbn in Hs. lia. Qed.
+
+Lemma T_peek_case n {A} (f : option tkind -> PM A) (R : pstate -> Prop) :
+  post (CM n) (cInv (CM n)) R (f None) ->
+  (forall t, post (CM n) (fun s => cInv (CM n) s /\ ps_cur s = Some t) R (f (Some (tok_kind t)))) ->
+  post (CM n) (cInv (CM n)) R (o <- p_peek ;; f o).
+Proof.
+  intros HN HS s Hs. unfold p_bind at 1.
+  pose proof (d_peek _ (CM_atoms n) s Hs) as Hp. pose proof (peek_cur s) as Hpc.
+  destruct (p_peek s) as [[o s1]| |]; [|exact Hp|exact Hp]. destruct Hp as [Hi1 Hr1]. cbn in Hi1, Hr1.
+  specialize (Hpc _ _ eq_refl). destruct o as [k|].
+  - destruct Hpc as (t & Hc & <-). specialize (HS t s1 (conj Hi1 Hc)).
+    destruct (f (Some (tok_kind t)) s1) as [[a s2]| |]; auto. destruct HS as [HR Hr2]. cbn in *. split; [auto|lia].
+  - specialize (HN s1 Hi1). destruct (f None s1) as [[a s2]| |]; auto. destruct HN as [HR Hr2]. cbn in *. split; [auto|lia].
+Qed.
+
+(* node k (bump sk ;; rest) with a significant current token: rest runs one level lower *)
+Lemma T_node_bump n {A} k sk t (rest : PM A) :
+  sigtok t -> spec (CM (n - 1)) rest ->
+  post (CM n) (fun s => cInv (CM n) s /\ ps_cur s = Some t) (cInv (CM n)) (p_node k (p_bump sk ;; rest)).
+Proof.
+  intros Hsig Hrest s [Hs Hc]. cbn in Hs. unfold p_node, p_bind at 1.
+  pose proof (d_start_node _ (CM_atoms n) k s Hs) as H1. pose proof (start_node_keep k t s) as Hk.
+  destruct (p_start_node k s) as [[u s1]| |]; [|exact H1|exact H1]. destruct H1 as [Hi1 Hr1]. cbn in Hi1, Hr1.
+  destruct (Hk _ _ Hc Hsig eq_refl) as [Hc1 Hm1].
+  unfold p_bind at 1, p_bind at 1.
+  pose proof (d_bump _ (CM_atoms n) sk s1 Hi1) as H2. pose proof (C_bump t sk s1) as Hcb.
+  destruct (p_bump sk s1) as [[u2 s2]| |]; [|exact H2|exact H2]. destruct H2 as [Hi2 Hr2]. cbn in Hi2, Hr2.
+  specialize (Hcb _ _ Hc1 eq_refl).
+  assert (Hs2 : (mu s2 < n - 1)%nat) by lia.
+  specialize (Hrest s2 Hs2). destruct (rest s2) as [[r s3]| |]; [|exact Hrest|exact Hrest].
+  destruct Hrest as [Hi3 Hr3]. cbn in Hi3, Hr3.
+  unfold p_bind at 1.
+  assert (Hs3 : (mu s3 < n)%nat) by lia.
+  pose proof (a_finish_node _ (CM_atoms n) s3 Hs3) as H4.
+  destruct (p_finish_node s3) as [[u4 s4]| |]; [|exact H4|exact H4]. destruct H4 as [Hi4 Hr4]. cbn in *. split; lia.
+Qed.
+
+Lemma post_strengthen_pre n {A} (P P' Q : pstate -> Prop) (m : PM A) :
+  (forall s, P' s -> P s) -> post (CM n) P Q m -> post (CM n) P' Q m.
+Proof. intros H Hm. eapply post_weaken; [exact H| |exact Hm]. auto. Qed.
+
+(* ---- ty.rs *)
+Lemma T_parse : forall fuel n, (n <= fuel)%nat -> spec (CM n) (g_parse fuel).
+Proof.
+  induction fuel as [|f IH]; intros n Hn.
+  - assert (n = 0)%nat as -> by lia. apply spec_CM0.
+  - cbn [g_parse]. unfold g_parse_body.
+    eapply post_bind; [apply CM_rel|apply (d_checkpoint_node _ (CM_atoms n))|intros cp].
+    apply T_peek_case.
+    + tsolve.
+    + intros t. eapply post_bind with (Q := cInv (CM n)); [apply CM_rel| |intros early; tsolve].
+      destruct (tok_kind t) eqn:Hk; cbv iota beta.
+      13:{ apply T_node_bump; [eapply sig_of_kind; eauto|].
+           eapply a_rec_guard; [apply CM_atoms|tsolve|apply IH; lia|intros; tsolve]. }
+      all: eapply post_strengthen_pre; [intros s0 [H0 _]; exact H0|]; tsolve.
+Qed.
+Global Hint Resolve T_parse : term.
+
+Lemma T_ty n fuel : (n <= fuel)%nat -> spec (CM n) (g_ty fuel).
+Proof. intros Hn. unfold g_ty. tsolve. Qed.
+Global Hint Resolve T_ty : term.
+
+(* ---- value.rs *)
+Lemma list_item_progress f c t s s' :
+  ps_cur s = Some t ->
+  (if tkind_eqb (tok_kind t) TkRBracket then p_bump SK_R_BRACK ;; p_ret false
+   else if tkind_eqb (tok_kind t) TkEof then p_ret false
+   else p_rec_guard (p_limit_err ;; p_ret false) (g_value f c true) (fun _ => p_ret true)) s = POk (true, s') ->
+  (mu s' < mu s)%nat.
+Proof.
+  intros Hc E. destruct (tkind_eqb _ TkRBracket).
+  { apply bind_ok in E as (? & ? & _ & E). discriminate. }
+  destruct (tkind_eqb _ TkEof); [discriminate|].
+  unfold p_rec_guard in E. apply bind_ok in E as (reached & s1 & E1 & E).
+  apply rec_check_keep in E1 as [Hc1 Hm1]. rewrite Hc in Hc1.
+  destruct reached.
+  - apply bind_ok in E as (? & ? & _ & E). discriminate.
+  - apply bind_ok in E as (? & s2 & E2 & E). pose proof (C_value t f c _ _ _ Hc1 E2).
+    apply bind_ok in E as (? & s3 & E3 & E). unfold p_ret in E. injection E as <-.
+    unfold p_rec_decrement in E3. destruct (ptracker_decrement _) as [t3| |]; try discriminate. injection E3 as H0.
+    subst s3. change (mu (ps_set_rec t3 s2)) with (mu s2). lia.
+Qed.
+
+Lemma T_value : forall fuel n, (n <= fuel)%nat -> forall c p, spec (CM n) (g_value fuel c p).
+Proof.
+  induction fuel as [|f IH]; intros n Hn c p.
+  - assert (n = 0)%nat as -> by lia. apply spec_CM0.
+  - cbn [g_value]. unfold g_value_body. apply T_peek_case.
+    + tsolve.
+    + intros t. destruct (tok_kind t) eqn:Hk; cbv iota beta.
+      13:{ (* [ *)
+        unfold g_list_value_. apply T_node_bump; [eapply sig_of_kind; eauto|].
+        apply T_peek_while; [|lia|].
+        - intros t0 s0 s0' Hc0 E0. eapply list_item_progress; eauto.
+        - intros m k Hm. assert (Hmf : (m <= f)%nat) by lia. pose proof (IH m Hmf) as Hv. tsolve. }
+      14:{ (* { *)
+        unfold g_object_value_. apply T_node_bump; [eapply sig_of_kind; eauto|].
+        eapply post_bind; [apply CM_rel| |intros; tsolve].
+        apply T_peek_while_kind; [|lia|].
+        - intros t0 Hk0. apply C_object_field_; [|exact Hk0]. intros c0 p0. apply (gg_value CMono CMono_ok).
+        - intros m Hm. assert (Hmf : (m <= f)%nat) by lia. pose proof (IH m Hmf) as Hv.
+          unfold g_object_field_. tsolve. }
+      all: eapply post_strengthen_pre; [intros s0 [H0 _]; exact H0|]; tsolve.
+Qed.
+Global Hint Resolve T_value : term.
+
+(* the loops `Name | StringValue => X; Continue, _ => Break` *)
+Lemma name_or_string_progress (X : PM unit) :
+  (forall t, tok_kind t = TkName \/ tok_kind t = TkStringValue -> consumes_at t X) ->
+  forall t s s', ps_cur s = Some t ->
+    (match tok_kind t with TkName | TkStringValue => X ;; p_ret true | _ => p_ret false end) s = POk (true, s') ->
+    (mu s' < mu s)%nat.
+Proof.
+  intros HX t s s' Hc E. destruct (tok_kind t) eqn:Hk; try discriminate.
+  all: apply bind_ok in E as (? & s1 & E1 & E); unfold p_ret in E; injection E as <-;
+       eapply HX; eauto.
+Qed.
+
+Ltac t_loop_ns lem :=
+  apply T_peek_while; [apply name_or_string_progress; intros; apply lem; assumption | lia | intros; tsolve].
+Ltac t_loop_kind lem :=
+  apply T_peek_while_kind; [intros; apply lem; assumption | lia | intros; tsolve].
+
+Lemma T_default_value n fuel : (n <= fuel)%nat -> spec (CM n) (g_default_value fuel).
+Proof. intros Hn. unfold g_default_value. tsolve. Qed.
+Global Hint Resolve T_default_value : term.
+Lemma T_argument n fuel c : (n <= fuel)%nat -> spec (CM n) (g_argument fuel c).
+Proof. intros Hn. unfold g_argument. tsolve. Qed.
+Global Hint Resolve T_argument : term.
+Lemma T_arguments n fuel c : (n <= fuel)%nat -> spec (CM n) (g_arguments fuel c).
+Proof.
+  intros Hn. unfold g_arguments. apply d_node; [apply CM_atoms|].
+  eapply post_bind; [apply CM_rel|tsolve|intros].
+  eapply post_bind; [apply CM_rel|tsolve|intros].
+  eapply post_bind; [apply CM_rel|tsolve|intros].
+  eapply post_bind; [apply CM_rel| |intros; tsolve].
+  t_loop_kind C_argument.
+Qed.
+Global Hint Resolve T_arguments : term.
+Lemma T_directive n fuel c : (n <= fuel)%nat -> spec (CM n) (g_directive fuel c).
+Proof. intros Hn. unfold g_directive. tsolve. Qed.
+Global Hint Resolve T_directive : term.
+Lemma T_directives n fuel c : (n <= fuel)%nat -> spec (CM n) (g_directives fuel c).
+Proof. intros Hn. unfold g_directives. apply d_node; [apply CM_atoms|]. t_loop_kind C_directive. Qed.
+Global Hint Resolve T_directives : term.
+Lemma T_input_value_definition n fuel : (n <= fuel)%nat -> spec (CM n) (g_input_value_definition fuel).
+Proof. intros Hn. unfold g_input_value_definition. tsolve. Qed.
+Global Hint Resolve T_input_value_definition : term.
+
+(* loops are recognised by the traversal tactic; the consumption facts come from a hint database *)
+Lemma C_variable_definition' t fuel : tok_kind t = TkDollar -> consumes_at t (g_variable_definition fuel).
+Proof. intros Hk. apply C_variable_definition. eapply sig_of_kind; eauto. Qed.
+Lemma C_root_operation_type_definition' t : tok_kind t = TkName -> consumes_at t g_root_operation_type_definition.
+Proof. intros Hk. apply C_root_operation_type_definition. eapply sig_of_kind; eauto. Qed.
+Create HintDb consume discriminated.
+Global Hint Resolve C_argument C_directive C_input_value_definition C_field_definition C_enum_value_definition
+  C_variable_definition' C_root_operation_type_definition' : consume.
+
+Ltac tloop :=
+  match goal with
+  | |- post _ _ _ (p_peek_while_kind _ _ _) =>
+      apply T_peek_while_kind; [ intros; solve [eauto with consume] | lia | intros ]
+  | |- post _ _ _ (p_peek_while _ _) =>
+      apply T_peek_while; [ apply name_or_string_progress; intros; solve [eauto with consume] | lia | intros ]
+  | |- post _ _ _ (p_parse_separated_list _ _ _ _) =>
+      unfold p_parse_separated_list
+  end.
+Ltac tfull := repeat first [ tstep | tloop ].
+
+Lemma T_arguments_definition_body n fuel : (n <= fuel)%nat -> spec (CM n) (g_arguments_definition_body fuel).
+Proof. intros Hn. unfold g_arguments_definition_body. tfull. Qed.
+Global Hint Resolve T_arguments_definition_body : term.
+Lemma T_arguments_definition n fuel : (n <= fuel)%nat -> spec (CM n) (g_arguments_definition fuel).
+Proof. intros Hn. unfold g_arguments_definition. tfull. Qed.
+Global Hint Resolve T_arguments_definition : term.
+
+(* separated lists: the loop body starts with a bump *)
+Lemma T_sep_list n fuel sep ss (run : PM unit) :
+  (n <= fuel)%nat -> (forall m, (m <= n)%nat -> spec (CM m) run) -> spec CMono run ->
+  spec (CM n) (p_parse_separated_list fuel sep ss run).
+Proof.
+  intros Hn Hrun Hmono. unfold p_parse_separated_list.
+  eapply post_bind; [apply CM_rel|tsolve|intros o].
+  eapply post_bind; [apply CM_rel| |intros].
+  { destruct (match o with Some k => tkind_eqb k sep | None => false end); cbn [p_when]; tsolve. }
+  eapply post_bind; [apply CM_rel|apply Hrun; lia|intros].
+  apply T_peek_while_kind; [intros; apply C_sep_body; exact Hmono|lia|].
+  intros m Hm. eapply post_bind; [apply CM_rel|tsolve|intros; apply Hrun; lia].
+Qed.
+
+Lemma T_directive_locations n fuel : (n <= fuel)%nat -> spec (CM n) (g_directive_locations fuel).
+Proof.
+  intros Hn. unfold g_directive_locations. apply T_sep_list; [exact Hn|intros; tsolve|].
+  apply (gg_directive_location CMono CMono_ok).
+Qed.
+Global Hint Resolve T_directive_locations : term.
+Lemma T_directive_definition n fuel : (n <= fuel)%nat -> spec (CM n) (g_directive_definition fuel).
+Proof. intros Hn. unfold g_directive_definition. tfull. Qed.
+Global Hint Resolve T_directive_definition : term.
+Lemma T_variable_definition n fuel : (n <= fuel)%nat -> spec (CM n) (g_variable_definition fuel).
+Proof. intros Hn. unfold g_variable_definition. tfull. Qed.
+Global Hint Resolve T_variable_definition : term.
+Lemma T_variable_definitions n fuel : (n <= fuel)%nat -> spec (CM n) (g_variable_definitions fuel).
+Proof. intros Hn. unfold g_variable_definitions. tfull. Qed.
+Global Hint Resolve T_variable_definitions : term.
+Lemma T_fragment_spread n fuel : (n <= fuel)%nat -> spec (CM n) (g_fragment_spread fuel).
+Proof. intros Hn. unfold g_fragment_spread. tfull. Qed.
+Global Hint Resolve T_fragment_spread : term.
+
+(* ---- selection.rs / field.rs / fragment.rs *)
+Lemma T_field_ n ss fuel : (n <= fuel)%nat -> spec (CM n) ss -> spec (CM n) (g_field_ ss fuel).
+Proof. intros Hn Hss. unfold g_field_. tfull. Qed.
+Lemma T_inline_fragment_ n ss fuel : (n <= fuel)%nat -> spec (CM n) ss -> spec (CM n) (g_inline_fragment_ ss fuel).
+Proof. intros Hn Hss. unfold g_inline_fragment_. tfull. Qed.
+
+Lemma peek_token_n_pure k s o s' : p_peek_token_n (S k) s = POk (o, s') -> s' = s.
+Proof. unfold p_peek_token_n, p_peek_n_inner. intros [= _ <-]. reflexivity. Qed.
+
+Lemma T_selection_ n ss fuel :
+  (n <= fuel)%nat -> (forall m, (m <= n)%nat -> spec (CM m) ss) -> spec CMono ss ->
+  spec (CM n) (g_selection_ ss fuel).
+Proof.
+  intros Hn Hss Hmono. unfold g_selection_.
+  eapply post_bind; [apply CM_rel| |intros; tsolve].
+  apply T_peek_while_acc; [|exact Hn|].
+  - intros acc t s r s' Hc E. destruct (tok_kind t) eqn:Hk; try discriminate.
+    + (* ... *)
+      apply bind_ok in E as (nt & s1 & E1 & E). apply peek_token_n_pure in E1. subst s1.
+      destruct nt as [nt|].
+      * apply bind_ok in E as (? & s2 & E2 & E). unfold p_ret in E. injection E as _ <-.
+        assert (Hsig : sigtok t) by (eapply sig_of_kind; eauto).
+        destruct (_ && _).
+        -- eapply C_fragment_spread; eauto.
+        -- destruct (existsb _ _).
+           ++ eapply C_inline_fragment_; eauto.
+           ++ eapply (C_err_then t (p_bump SK_SPREAD)); eauto. apply C_bump.
+      * apply bind_ok in E as (? & s2 & _ & E). discriminate.
+    + (* Name *)
+      apply bind_ok in E as (? & s2 & E2 & E). unfold p_ret in E. injection E as _ <-.
+      eapply C_field_; eauto.
+  - intros m acc k Hm. pose proof (Hss m Hm) as Hssm.
+    assert (Hmf : (m <= fuel)%nat) by lia.
+    pose proof (T_field_ m ss fuel Hmf Hssm). pose proof (T_inline_fragment_ m ss fuel Hmf Hssm).
+    tsolve.
+Qed.
+
+Lemma T_peek_is_case n k {A} (K : bool -> PM A) (R : pstate -> Prop) :
+  post (CM n) (cInv (CM n)) R (K false) ->
+  (forall t, tok_kind t = k -> post (CM n) (fun s => cInv (CM n) s /\ ps_cur s = Some t) R (K true)) ->
+  post (CM n) (cInv (CM n)) R (b <- g_peek_is k ;; K b).
+Proof.
+  intros HF HT s Hs. unfold p_bind at 1, g_peek_is, p_bind at 1.
+  pose proof (d_peek _ (CM_atoms n) s Hs) as Hp. pose proof (peek_cur s) as Hpc.
+  destruct (p_peek s) as [[o s1]| |]; [|exact Hp|exact Hp]. destruct Hp as [Hi1 Hr1]. cbn in Hr1.
+  specialize (Hpc _ _ eq_refl). cbn [p_ret]. cbv iota beta.
+  assert (Hfalse : match K false s1 with
+                   | POk (_, s') => R s' /\ cRel (CM n) s s' | PPanic _ => cPanicOk (CM n) | POutOfFuel => cFuelOk (CM n) end).
+  { specialize (HF s1 Hi1). destruct (K false s1) as [[a s2]| |]; auto. destruct HF as [HR Hr2]. cbn in *. split; [auto|lia]. }
+  destruct o as [k0|]; [|exact Hfalse].
+  destruct Hpc as (t & Hc & <-).
+  destruct (tkind_eqb (tok_kind t) k) eqn:Hk; [|exact Hfalse].
+  apply tkind_eqb_eq in Hk. specialize (HT t Hk s1 (conj Hi1 Hc)).
+  destruct (K true s1) as [[a s2]| |]; auto. destruct HT as [HR Hr2]. cbn in *. split; [auto|lia].
+Qed.
+
+Lemma T_selection_set : forall fuel n, (n <= fuel)%nat -> spec (CM n) (g_selection_set fuel).
+Proof.
+  induction fuel as [|f IH]; intros n Hn.
+  - assert (n = 0)%nat as -> by lia. apply spec_CM0.
+  - cbn [g_selection_set]. unfold g_selection_set_body. apply T_peek_is_case.
+    + cbn [p_when]. tsolve.
+    + intros t Hk. cbn [p_when]. apply T_node_bump; [eapply sig_of_kind; eauto|].
+      eapply a_rec_guard; [apply CM_atoms|tsolve| |intros; tsolve].
+      apply T_selection_; [lia| |apply (gg_selection_set CMono CMono_ok)].
+      intros m Hm. apply IH. lia.
+Qed.
+Global Hint Resolve T_selection_set : term.
+
+Lemma T_selection n fuel : (n <= fuel)%nat -> spec (CM n) (g_selection fuel).
+Proof.
+  intros Hn. unfold g_selection. apply T_selection_; [exact Hn| |apply (gg_selection_set CMono CMono_ok)].
+  intros m Hm. apply T_selection_set. lia.
+Qed.
+Global Hint Resolve T_selection : term.
+
+(* ---- the remaining productions *)
+Lemma T_trailing n fuel : (n <= fuel)%nat -> spec (CM n) (p_trailing_tokens_are_errors fuel).
+Proof.
+  intros Hn. unfold p_trailing_tokens_are_errors.
+  eapply post_bind; [apply CM_rel|tsolve|intros].
+  eapply post_bind; [apply CM_rel|apply T_trailing_loop; exact Hn|intros; tsolve].
+Qed.
+Global Hint Resolve T_trailing : term.
+
+Lemma T_field_set n fuel : (n <= fuel)%nat -> spec (CM n) (g_field_set fuel).
+Proof. intros Hn. unfold g_field_set. tfull. Qed.
+
+Lemma T_fragment_definition n fuel : (n <= fuel)%nat -> spec (CM n) (g_fragment_definition fuel).
+Proof. intros Hn. unfold g_fragment_definition. tfull. Qed.
+Lemma T_operation_definition n fuel : (n <= fuel)%nat -> spec (CM n) (g_operation_definition fuel).
+Proof. intros Hn. unfold g_operation_definition. tfull. Qed.
+Lemma T_field_definition n fuel : (n <= fuel)%nat -> spec (CM n) (g_field_definition fuel).
+Proof. intros Hn. unfold g_field_definition. tfull. Qed.
+Global Hint Resolve T_fragment_definition T_operation_definition T_field_definition : term.
+Lemma T_fields_definition n fuel : (n <= fuel)%nat -> spec (CM n) (g_fields_definition fuel).
+Proof. intros Hn. unfold g_fields_definition. tfull. Qed.
+Global Hint Resolve T_fields_definition : term.
+
+Lemma T_implements_interfaces n fuel : (n <= fuel)%nat -> spec (CM n) (g_implements_interfaces fuel).
+Proof.
+  intros Hn. unfold g_implements_interfaces. apply d_node; [apply CM_atoms|].
+  eapply post_bind; [apply CM_rel|tsolve|intros].
+  apply T_sep_list; [exact Hn|intros; tsolve|]. pose proof CMono_ok as H. gfull.
+Qed.
+Global Hint Resolve T_implements_interfaces : term.
+Lemma T_union_member_types n fuel : (n <= fuel)%nat -> spec (CM n) (g_union_member_types fuel).
+Proof.
+  intros Hn. unfold g_union_member_types. apply d_node; [apply CM_atoms|].
+  eapply post_bind; [apply CM_rel|tsolve|intros].
+  apply T_sep_list; [exact Hn|intros; tsolve|]. pose proof CMono_ok as H. gfull.
+Qed.
+Global Hint Resolve T_union_member_types : term.
+
+Lemma T_object_type_definition n fuel : (n <= fuel)%nat -> spec (CM n) (g_object_type_definition fuel).
+Proof. intros Hn. unfold g_object_type_definition. tfull. Qed.
+Lemma T_object_type_extension n fuel : (n <= fuel)%nat -> spec (CM n) (g_object_type_extension fuel).
+Proof. intros Hn. unfold g_object_type_extension. tfull. Qed.
+Lemma T_interface_type_definition n fuel : (n <= fuel)%nat -> spec (CM n) (g_interface_type_definition fuel).
+Proof. intros Hn. unfold g_interface_type_definition. tfull. Qed.
+Lemma T_interface_type_extension n fuel : (n <= fuel)%nat -> spec (CM n) (g_interface_type_extension fuel).
+Proof. intros Hn. unfold g_interface_type_extension. tfull. Qed.
+Lemma T_scalar_type_definition n fuel : (n <= fuel)%nat -> spec (CM n) (g_scalar_type_definition fuel).
+Proof. intros Hn. unfold g_scalar_type_definition. tfull. Qed.
+Lemma T_scalar_type_extension n fuel : (n <= fuel)%nat -> spec (CM n) (g_scalar_type_extension fuel).
+Proof. intros Hn. unfold g_scalar_type_extension. tfull. Qed.
+
+Lemma T_root_loop n fuel :
+  (n <= fuel)%nat ->
+  spec (CM n) (p_peek_while_kind_acc fuel TkName (fun _ : bool => g_root_operation_type_definition ;; p_ret true) false).
+Proof.
+  intros Hn. apply T_peek_while_kind_acc; [|exact Hn|intros; tsolve].
+  intros acc t s r s' Hc Hk E. apply bind_ok in E as (? & s1 & E1 & E). unfold p_ret in E. injection E as _ <-.
+  eapply C_root_operation_type_definition'; eauto.
+Qed.
+Global Hint Resolve T_root_loop : term.
+Lemma T_schema_definition n fuel : (n <= fuel)%nat -> spec (CM n) (g_schema_definition fuel).
+Proof. intros Hn. unfold g_schema_definition. tfull. Qed.
+Lemma T_schema_extension n fuel : (n <= fuel)%nat -> spec (CM n) (g_schema_extension fuel).
+Proof. intros Hn. unfold g_schema_extension. tfull. Qed.
+Lemma T_union_type_definition n fuel : (n <= fuel)%nat -> spec (CM n) (g_union_type_definition fuel).
+Proof. intros Hn. unfold g_union_type_definition. tfull. Qed.
+Lemma T_union_type_extension n fuel : (n <= fuel)%nat -> spec (CM n) (g_union_type_extension fuel).
+Proof. intros Hn. unfold g_union_type_extension. tfull. Qed.
+Lemma T_enum_value_definition n fuel : (n <= fuel)%nat -> spec (CM n) (g_enum_value_definition fuel).
+Proof. intros Hn. unfold g_enum_value_definition. tfull. Qed.
+Global Hint Resolve T_enum_value_definition : term.
+Lemma T_enum_values_definition n fuel : (n <= fuel)%nat -> spec (CM n) (g_enum_values_definition fuel).
+Proof. intros Hn. unfold g_enum_values_definition. tfull. Qed.
+Global Hint Resolve T_enum_values_definition : term.
+Lemma T_enum_type_definition n fuel : (n <= fuel)%nat -> spec (CM n) (g_enum_type_definition fuel).
+Proof. intros Hn. unfold g_enum_type_definition. tfull. Qed.
+Lemma T_enum_type_extension n fuel : (n <= fuel)%nat -> spec (CM n) (g_enum_type_extension fuel).
+Proof. intros Hn. unfold g_enum_type_extension. tfull. Qed.
+Lemma T_input_fields_definition n fuel : (n <= fuel)%nat -> spec (CM n) (g_input_fields_definition fuel).
+Proof. intros Hn. unfold g_input_fields_definition. tfull. Qed.
+Global Hint Resolve T_input_fields_definition : term.
+Lemma T_input_object_type_definition n fuel : (n <= fuel)%nat -> spec (CM n) (g_input_object_type_definition fuel).
+Proof. intros Hn. unfold g_input_object_type_definition. tfull. Qed.
+Lemma T_input_object_type_extension n fuel : (n <= fuel)%nat -> spec (CM n) (g_input_object_type_extension fuel).
+Proof. intros Hn. unfold g_input_object_type_extension. tfull. Qed.
+Global Hint Resolve T_object_type_definition T_object_type_extension T_interface_type_definition
+  T_interface_type_extension T_scalar_type_definition T_scalar_type_extension T_schema_definition
+  T_schema_extension T_union_type_definition T_union_type_extension T_enum_type_definition
+  T_enum_type_extension T_input_object_type_definition T_input_object_type_extension : term.
+Lemma T_extensions n fuel : (n <= fuel)%nat -> spec (CM n) (g_extensions fuel).
+Proof. intros Hn. unfold g_extensions. tfull. Qed.
+Global Hint Resolve T_extensions : term.
+Lemma T_select_definition n def fuel : (n <= fuel)%nat -> spec (CM n) (g_select_definition def fuel).
+Proof. intros Hn. unfold g_select_definition. tfull. Qed.
+Global Hint Resolve T_select_definition : term.
+Lemma T_document_step n fuel kind : (n <= fuel)%nat -> spec (CM n) (g_document_step fuel kind).
+Proof. intros Hn. unfold g_document_step. tfull. Qed.
+Global Hint Resolve T_document_step : term.
